@@ -36,4 +36,5 @@ case " ${args[*]} " in
       echo "note: -race build failed; race pass skipped (see .bin/c09-race.build.log)" >&2
     fi;;
 esac
-exec "$ROOT/.bin/c09" "${args[@]}"
+BIN="$ROOT/.bin/c09"; [ -n "${VERIF_REPO:-}" ] && BIN="$ROOT/.bin/alt/c09"
+exec "$BIN" "${args[@]}"
